@@ -149,8 +149,19 @@ Definition learner_one (a : mst * list (N * attempt)) (pid : N) : mst * list (N 
       let '(r, w) := learner_check s in
       (writeback (fst a) pid (upd_reg s r), snd a ++ tag pid w)
   end.
+(* with the start key "false" the driver calls cleanAllLearners: partitions in index order (not map order), and it
+   gives up at the first failed update *)
+Definition learner_clean_one (acc : mst * list (N * attempt) * bool) (pid : N) : mst * list (N * attempt) * bool :=
+  let '(m0, w0, stop) := acc in
+  if stop then acc
+  else let '(m1, w1) := learner_one (m0, []) pid in
+       (m1, w0 ++ w1, existsb (fun pa => negb (a_ok (snd pa))) w1).
 Definition learner_round (m : mst) (order : list N) : mst * list (N * attempt) :=
-  fold_left learner_one order (m, []).
+  if 0 <? r_mode (s_reg (m_g m)) then (m, [])
+  else match s_lstart (m_g m) with
+  | Some false => fst (fold_left learner_clean_one (map fst (m_parts m)) (m, [], false))
+  | _ => fold_left learner_one order (m, [])
+  end.
 
 (* ---------- events ---------- *)
 Inductive mevent :=
